@@ -2,6 +2,7 @@ package checks
 
 import (
 	"fmt"
+	"strings"
 	"sync/atomic"
 	"time"
 
@@ -50,13 +51,33 @@ func c17RetryHedge(rep *vk.Report, idx int) {
 	var doneBad bool
 	var dAttempts, dRetries, dHedges, dExecs int
 	ex := failsafe.NewExecutor[int](pols...).OnDone(func(e failsafe.ExecutionDoneEvent[int]) {
-		dAttempts, dRetries, dHedges, dExecs = e.Attempts(), e.Retries(), e.Hedges(), e.Executions()
+		dExecs, dRetries, dHedges = e.Executions(), e.Retries(), e.Hedges()
+		dAttempts = e.Attempts()
 		done = fmt.Sprintf("Attempts=%d Retries=%d Hedges=%d Executions=%d", dAttempts, dRetries, dHedges, dExecs)
 		doneBad = dAttempts != 1+dRetries+dHedges
 	})
+	var hedgeEntries, plainEntries atomic.Int64
 	fn := func(exec failsafe.Execution[int]) (int, error) {
 		k := int(calls.Add(1))
 		defer completed.Add(1)
+		// IsHedge identifies the attempts the hedge policy started: it is a fact about this attempt, so it cannot change
+		// while the attempt runs, and over the execution there are at most Hedges such attempts and 1+Retries others
+		isHedge := exec.IsHedge()
+		if isHedge {
+			hedgeEntries.Add(1)
+		} else {
+			plainEntries.Add(1)
+		}
+		if isHedge && exec.IsFirstAttempt() {
+			msg := "an attempt reports IsHedge and IsFirstAttempt at once"
+			bad.CompareAndSwap(nil, &msg)
+		}
+		defer func() {
+			if exec.IsHedge() != isHedge {
+				msg := fmt.Sprintf("invocation %d saw IsHedge()=%v on entry and %v when it returned", k, isHedge, !isHedge)
+				bad.CompareAndSwap(nil, &msg)
+			}
+		}()
 		if k <= failFirst {
 			select {
 			case <-time.After(2 * delay):
@@ -96,7 +117,17 @@ func c17RetryHedge(rep *vk.Report, idx int) {
 		return
 	}
 	if s := bad.Load(); s != nil {
-		viol("counter-ahead-of-events", *s)
+		if strings.Contains(*s, "IsHedge") {
+			viol("ishedge-not-a-fact-about-the-attempt", *s)
+		} else {
+			viol("counter-ahead-of-events", *s)
+		}
+		return
+	}
+	// under hedge>retry a hedged branch retries on its own hedge copy, so several invocations belong to one hedge; with the
+	// hedge innermost every hedge is exactly one invocation
+	if nest == "retry>hedge" && int(hedgeEntries.Load()) > dHedges || int(plainEntries.Load()) > 1+dRetries {
+		viol("ishedge-disagrees-with-counters", fmt.Sprintf("%d invocations reported IsHedge()=true and %d reported false, but the execution started %d hedges and %d retries", hedgeEntries.Load(), plainEntries.Load(), dHedges, dRetries))
 		return
 	}
 	if dRetries > 0 && dHedges > 0 {
